@@ -298,6 +298,9 @@ func scenC15(r *Run) {
 	exact, aliasM := &c15model{}, &c15model{}
 	nops := 1 + r.Plan(25)
 	done := false
+	var prevHs []*c15handler
+	var prevVals []core.PluginHandler
+	var prevTags []string
 	sim.Task("history", func() {
 		defer func() { done = true }()
 		nonce := 0
@@ -309,12 +312,19 @@ func scenC15(r *Run) {
 				var hs []*c15handler
 				var vals []core.PluginHandler
 				var tags []string
-				for j := 0; j < k; j++ {
-					h := pool[r.Plan(len(pool))]
-					hs = append(hs, h)
-					vals = append(vals, h.value)
-					tags = append(tags, h.tag)
+				if prevVals != nil && r.Plan(4) == 0 {
+					// the caller hands over the very slice it passed to the previous Use/Unuse (a configuration
+					// list kept around): the list still means the handlers it was built from
+					hs, vals, tags = prevHs, prevVals, prevTags
+				} else {
+					for j := 0; j < k; j++ {
+						h := pool[r.Plan(len(pool))]
+						hs = append(hs, h)
+						vals = append(vals, h.value)
+						tags = append(tags, h.tag)
+					}
 				}
+				prevHs, prevVals, prevTags = hs, vals, tags
 				sim.Event(op, strings.Join(tags, ","))
 				if op == "use" {
 					if onService {
